@@ -373,10 +373,16 @@ impl CGen {
         for _ in 0..self.r.below(3) {
             t.metadata.push(tir::Metadata {
                 key: E::Number(if self.boundary { self.amount() } else { self.r.range(0, 3) as i128 }),
-                value: match self.r.below(4) {
+                // texts and byte strings of every small length, the empty ones included (a memo left blank is
+                // still an entry), and at the 64-byte limit of a metadatum
+                value: match self.r.below(6) {
                     0 => E::Number(self.data_int()),
-                    1 => E::String("meta".into()),
-                    2 => E::Bytes(self.r.bytes(4)),
+                    1 => E::String((*self.r.pick(&["meta", "", "", "m", "0123456789012345678901234567890123456789012345678901234567890123"])).into()),
+                    2 => {
+                        let l = *self.r.pick(&[0usize, 0, 1, 4, 64]);
+                        E::Bytes(self.r.bytes(l))
+                    }
+                    4 => E::String(String::new()),
                     _ if self.malformed => E::Bool(true),
                     _ => E::Number(7),
                 },
